@@ -19,6 +19,17 @@ import (
 )
 
 // VerifDir is where evidence, replays and known findings live.
+// ShardOf assigns case k to one of n shard processes. Consecutive cases go to different shards, and the assignment
+// rotates by one from each block of n cases to the next: case kinds are chosen by k mod m in most properties, and
+// with a plain k mod n every shard process would only ever run the kinds congruent to its own number, so that
+// nothing a process remembers from one kind could meet another kind.
+func ShardOf(k, n int) int {
+	if n <= 1 {
+		return 0
+	}
+	return (k + k/n) % n
+}
+
 func VerifDir() string {
 	if d := os.Getenv("VERIF_DIR"); d != "" {
 		return d
@@ -176,7 +187,7 @@ func RunShard(a shardArgs) int {
 			if k != a.Only {
 				continue
 			}
-		} else if k%a.N != a.Shard || k < a.From {
+		} else if ShardOf(k, a.N) != a.Shard || k < a.From {
 			continue
 		}
 		if pf != nil {
